@@ -3,3 +3,14 @@
 #include "cov_protos.h"
 static inline coverage coverage_copy(const coverage *c) { coverage r; r.__base0 = vec_copy(&c->__base0); return r; }
 extern value_type g_vtype_aset, g_vtype_cst;
+/* integer operations of int.cc used by the constant-operand words: bodies are the ones lowered from
+   int.cc by the C08 unit and linked in (their contracts are proved in C08) */
+_Bool mpz_lt(mpz_class v1, mpz_class v2);
+_Bool mpz_gt(mpz_class v1, mpz_class v2);
+_Bool mpz_ge(mpz_class v1, mpz_class v2);
+_Bool mpz_le(mpz_class v1, mpz_class v2);
+_Bool mpz_eq(mpz_class v1, mpz_class v2);
+_Bool mpz_ne(mpz_class v1, mpz_class v2);
+mpz_class mpz_sub(mpz_class v1, mpz_class v2);
+/* virtual constant_dom::safe_arith(): only decides whether a warning is printed */
+static inline _Bool cdom_safe_arith_model(const zw_cdom *d) { return 1; }
